@@ -491,8 +491,17 @@ class ImplWorld:
             cache[ci] = oracles.wf_json(ChartEnc(self.charts[ci]).json)
         return cache[ci]
 
-    def op_setclock(self, i, t):
-        """move the clock without executing (the interpreter's own time stays)"""
+    def op_setclock(self, i, t, how=None):
+        """move the clock without executing (the interpreter's own time stays); `how == 'new'`: the interpreter is
+        given another clock object that shows `t`"""
+        if how == 'new' and not (self.tick_clock or self.running_clock):
+            if isinstance(self.slots[i].clock, ScriptClock):
+                self.slots[i].clock = ScriptClock(t)
+            else:
+                c = SimulatedClock()
+                c.time = t
+                self.slots[i].clock = c
+            return None
         self._set_clock(self.slots[i], t)
         return None
 
@@ -505,6 +514,19 @@ class ImplWorld:
                 return Event(v['ev'], **{k: dec(x) for k, x in v['data']})
             return v
         self.slots[i].queue(Event(e['ev'], **{k: dec(v) for k, v in e['data']}))
+        return None
+
+    def op_queuemany(self, i, expanded, form):
+        """`queue(e₁, e₂, …, **parameters)` in one call: `form` = [[['name', n] | ['inst', event], …], parameters];
+        `expanded` (for the model and the oracles) lists the events this means, in the order given"""
+        def dec(v):
+            if isinstance(v, dict) and 'list' in v:
+                return list(v['list'])
+            return v
+        args = []
+        for kind, x in form[0]:
+            args.append(x if kind == 'name' else Event(x['ev'], **{k: dec(v) for k, v in x['data']}))
+        self.slots[i].queue(*args, **{k: dec(v) for k, v in form[1]})
         return None
 
     def op_setvar(self, i, n, v):
